@@ -325,3 +325,22 @@ def replay_generic(prop, f):
     """True if the recorded input still violates the property"""
     viol = check_pair(f['ro'], f['msg'], f['kind'], f['args'], f['fn'])
     return any(p == prop for p, _ in viol)
+
+
+from oracles2 import *   # noqa: classification / collection / completion oracles
+
+
+def search_C12(tier, rng):
+    r = search_merges('C12', tier, rng)
+    n, fl = search_C12_classification(tier, rng)
+    r['evaluations'] += n
+    r['failures'] = fl + r['failures']
+    r['summary']['short'] += '; %d classifications of well-formed documents, %d failing' % (n, len(fl))
+    return r
+
+
+def replay_C12(prop, f):
+    if 'doc' in f:
+        r = classify(f['doc'], 'str', False)
+        return r.startswith('exc:') and r != 'exc:UnknownMosFileType'
+    return replay_generic(prop, f)
